@@ -16,6 +16,7 @@ import itertools
 import random
 
 from .. import harness as H
+from ..sim import net
 from ..ref import rfc6455 as R
 from ..ref import utf8 as U
 
@@ -270,6 +271,9 @@ def run(res, tier, seed, shard, nshards):
         recv_path(res, W, tier, rng, shard, nshards)
     if shard == 1 % nshards:
         H.in_sim(lambda: redirect_option_cases(res, W, rng), watchdog=120)
+    if shard == 2 % nshards:
+        H.in_sim(lambda: after_failed_call_cases(res, W, rng, tier), watchdog=300)
+        concurrent_close_cases(res, W, tier, seed=shard)
     # 5. through WebSocketApp ---------------------------------------------------
     app_path(res, W, tier, rng, shard, nshards)
 
@@ -283,6 +287,145 @@ CORPUS = [
     b"\x80", b"\xbf", b"\xff", b"\xfe", b"a\x80b", b"\xe2\x28\xa1", b"\xc2\x41",
     b"\xef\xbf\xbd", b"\xf4\x8f\xbf\xbf", b"\xed\x9f\xbf", b"\xee\x80\x80", b"\x00", "\u0000\u007f\u0080".encode(),
 ]
+
+
+def after_failed_call_cases(res, W, rng, tier):
+    """A receive call that ended with an exception (nothing arrived within the timeout; a failing automatic pong; an interrupted call)
+    leaves the validation of what arrives afterwards as it was: ill-formed text is still rejected by every receive call."""
+    bad = [b"caf\xc3", b"\xed\xa0\x80", b"\xc0\xaf", b"\xf4\x90\x80\x80", b"ab\xff"]
+    for i in range(60 if tier == "quick" else 1200):
+        data = bad[i % len(bad)]
+        failure = ["timeout", "timeout-twice", "pong-failure", "interrupt"][(i // len(bad)) % 4]
+        first_api = ["recv", "recv_data", "recv_data_frame", "next"][(i // 3) % 4]
+        second_api = ["recv_data", "recv_data_frame", "recv", "recv_data"][(i // 7) % 4]
+        frag = (i // 11) % 2
+        w, conn, peer = H.connected_ws(timeout=1)
+        case = {"gen": "after-failed-call", "data": data, "failure": failure, "failed_call": first_api, "then": second_api, "fragmented": bool(frag)}
+        res.case(("after-failed", data, failure, first_api, second_api, frag), nontrivial=True)
+        res.count("after_failed_call_cases")
+
+        def call(name):
+            if name == "recv":
+                return (R.TEXT, w.recv())
+            if name == "next":
+                return (R.TEXT, next(w))
+            if name == "recv_data":
+                return w.recv_data()
+            op, fr = w.recv_data_frame()
+            return (op, fr.data)
+        failed = 0
+        for _ in range(2 if failure == "timeout-twice" else 1):
+            if failure == "pong-failure":
+                conn.deliver(R.encode(R.PING, b"x"))
+                conn.send_error = ConnectionResetError(104, "reset")
+                conn.write_plan = iter([0])
+            elif failure == "interrupt":
+                conn.deliver_segments([(net.ERROR, KeyboardInterrupt())])
+            try:
+                call(first_api)
+            except BaseException as e:  # noqa
+                from ..sim import sched as _s
+                if isinstance(e, _s.SimAbort):
+                    raise
+                failed += 1
+        conn.send_error = None
+        conn.write_plan = None
+        if not failed or not w.connected:
+            res.count("after_failed_call_setup_did_not_fail" if not failed else "after_failed_call_connection_gone")
+            continue
+        if frag:
+            conn.deliver(R.encode(R.TEXT, data[:1], fin=0) + R.encode(R.CONT, data[1:]))
+        else:
+            conn.deliver(R.encode(R.TEXT, data))
+        try:
+            got = ("value", call(second_api))
+        except Exception as e:  # noqa
+            got = ("exc", e)
+        if got[0] == "value":
+            res.violation("recv-mismatch", f"after a {first_api}() call that failed ({failure}), ill-formed text {data.hex()} ({classify(data)}) was delivered by {second_api}: {got[1]!r}",
+                          case, input_class=classify(data), skip=False, path="after-failed-call", outcome="delivered")
+        elif not isinstance(got[1], (W.WebSocketProtocolException, W.WebSocketPayloadException)):
+            res.count("after_failed_call_other_exception:" + type(got[1]).__name__)
+        else:
+            res.count("after_failed_call_rejected")
+        try:
+            w.shutdown()
+        except Exception:  # noqa
+            pass
+
+
+def concurrent_close_cases(res, W, tier, seed):
+    """One thread sits in a receive call, another calls close(): the server's close reply with an ill-formed reason is rejected whichever
+    thread reads it (every interleaving of the two at I/O points, and random ones at line level)."""
+    from ..sim import sched, shim
+    from . import c12
+    sched.install_line_monitor(shim.PREFIX)
+    for reason, api in [(b"bye \xed\xa0\x80", "recv_data"), (b"\xff\xfe", "recv"), (b"caf\xc3", "recv_data_frame")]:
+        def factory(reason=reason, api=api, line=False):
+            def scen():
+                S = sched.CURRENT
+
+                seen = bytearray()
+                state = {}
+
+                def on_bytes(conn_, data_):
+                    seen.extend(data_)
+                    frames, _ = R.decode_all(bytes(seen))
+                    if any(f.opcode == R.CLOSE for f in frames) and not state.get("answered"):
+                        state["answered"] = True
+                        conn_.deliver(R.encode(R.CLOSE, b"\x03\xe8" + reason))
+                w, conn, peer = H.connected_ws(timeout=2, on_bytes=on_bytes)
+                out = {"reader": None, "closer": None}
+
+                def reader():
+                    try:
+                        if api == "recv":
+                            out["reader"] = ("value", w.recv())
+                        elif api == "recv_data":
+                            out["reader"] = ("value", w.recv_data())
+                        else:
+                            op, fr = w.recv_data_frame(True)
+                            out["reader"] = ("value", (op, bytes(fr.data)))
+                    except BaseException as e:  # noqa
+                        if isinstance(e, sched.SimAbort):
+                            raise
+                        out["reader"] = ("exc", e)
+
+                def closer():
+                    try:
+                        w.close(timeout=1)
+                        out["closer"] = ("value", None)
+                    except BaseException as e:  # noqa
+                        if isinstance(e, sched.SimAbort):
+                            raise
+                        out["closer"] = ("exc", e)
+                a1 = S.spawn(reader, name="reader")
+                S.block(lambda: a1.state in (sched.BLOCKED, sched.DONE), 0.5, why="let the reader enter its call")
+                a2 = S.spawn(closer, name="closer")
+                S.arm(line_points=line)
+                S.block(lambda: a1.state == sched.DONE and a2.state == sched.DONE, None, why="join")
+                S.disarm()
+                return out
+            return scen
+
+        def judge_(obs, S, reason=reason, api=api):
+            issues = []
+            r = obs["reader"]
+            if r and r[0] == "value" and r[1] not in (None, ""):
+                v = r[1]
+                if (isinstance(v, tuple) and v[0] == R.CLOSE and reason in bytes(v[1])) or (isinstance(v, str) and v):
+                    issues.append(("recv-mismatch", f"a reader in {api}() while another thread called close(): the server's close frame with the ill-formed reason {reason.hex()} "
+                                   f"was delivered to the reader: {v!r}", {"input_class": classify(reason), "path": "concurrent-close", "outcome": "delivered", "skip": False}))
+            elif r and r[0] == "value" and api == "recv" and r[1] == "":
+                issues.append(("recv-mismatch", f"a reader in recv() while another thread called close(): the close frame with the ill-formed reason {reason.hex()} was accepted "
+                               f"(recv() returned '')", {"input_class": classify(reason), "path": "concurrent-close", "outcome": "delivered", "skip": False}))
+            case = {"gen": "concurrent-close", "reason": reason, "api": api, "decisions": list(S.decisions)[:200]}
+            kind = (r[0] if r else None, type(r[1]).__name__ if r and r[0] == "exc" else None)
+            return issues, case, kind, S.switches > 0
+
+        tag = ("concurrent-close", reason, api)
+        c12.explore(res, lambda: factory(line=False), judge_, tag, "dfs", 60 if tier == "quick" else 3000, seed, "concurrent_close_schedules")
+        c12.explore(res, lambda: factory(line=True), judge_, tag, "random", 25 if tier == "quick" else 1500, seed, "concurrent_close_schedules")
 
 
 def fragmentations(data, maxparts):
